@@ -163,6 +163,61 @@ func init() {
 		defer d.Close()
 		return observe(d, len(buf))
 	}
+	// debxzdict n buf: deb.SetXZMaxDict(n) and then deb.SetXZMaxDict(0) - "If zero is supplied, the default max dictionary
+	// size will be used" - and then an ordinary Load: the package loads as if the limit had never been touched
+	ops["debxzdict"] = func(a []string) string {
+		n, _ := strconv.ParseUint(arg(a, 0), 10, 32)
+		deb.SetXZMaxDict(uint32(n))
+		deb.SetXZMaxDict(0)
+		return ops["debload"]([]string{arg(a, 1)})
+	}
+	// debentries buf: the index of ar members a loaded package exposes (Deb.ArContent), each entry asked whether it is a
+	// tarball (IsTarfile) and, if so, opened through ArEntry.Tarfile() - the decompressor chosen by the member's extension -
+	// and listed: "( name size istar [ entry names ] )" sorted by name
+	ops["debentries"] = func(a []string) string {
+		buf := []byte(arg(a, 0))
+		d, err := deb.Load(bytes.NewReader(buf), "x.deb")
+		if err != nil {
+			return "err"
+		}
+		defer d.Close()
+		names := []string{}
+		for n := range d.ArContent {
+			names = append(names, n)
+		}
+		sort.Strings(names)
+		items := []string{}
+		for _, n := range names {
+			e := d.ArContent[n]
+			listing := "-"
+			if e.IsTarfile() {
+				// the loader has read from this member's reader: a caller that wants the member again rewinds it first
+				e.Data.Seek(0, io.SeekStart)
+				tr, closer, err := e.Tarfile()
+				if err != nil {
+					listing = "open-error"
+				} else {
+					files := []string{}
+					for k := 0; k < 10000; k++ {
+						h, err := tr.Next()
+						if err == io.EOF {
+							break
+						}
+						if err != nil {
+							files = append(files, "read-error")
+							break
+						}
+						c, _ := ioutil.ReadAll(tr)
+						files = append(files, hx(h.Name)+":"+strconv.Itoa(len(c)))
+					}
+					closer.Close()
+					listing = showList(files)
+				}
+			}
+			items = append(items, fmt.Sprintf("( %s %d %s %s )", hx(n), e.Size, showBool(e.IsTarfile()), listing))
+		}
+		return "ok " + showList(items)
+	}
 	// debload2 bufA bufB -> BOTH packages are loaded before either is looked at; each exposes its own content
 	ops["debload2"] = func(a []string) string {
 		ba, bb := []byte(arg(a, 0)), []byte(arg(a, 1))
@@ -190,6 +245,7 @@ func init() {
 			d      *deb.Deb
 			closer deb.Closer
 			size   int
+			path   string
 		}
 		hs := map[int]*handle{}
 		var files []string
@@ -222,7 +278,17 @@ func init() {
 				if err != nil {
 					return "loaderr"
 				}
-				hs[i] = &handle{d: d, closer: closer, size: len(buf)}
+				hs[i] = &handle{d: d, closer: closer, size: len(buf), path: f.Name()}
+			case 'W':
+				// W<i>:<j>: the FILE package i was loaded from (LoadFile) is replaced on disk - a new file renamed over the
+				// path - by the bytes of package j.  What was loaded stays what it was.
+				j, _ := strconv.Atoi(parts[1])
+				if hs[i] == nil || hs[i].path == "" {
+					return "bad-script"
+				}
+				tmp := hs[i].path + ".new"
+				ioutil.WriteFile(tmp, []byte(arg(a, 1+j)), 0644)
+				os.Rename(tmp, hs[i].path)
 			case 'O':
 				out = append(out, "( "+observe(hs[i].d, hs[i].size)+" )")
 			case 'C':
